@@ -14,12 +14,34 @@ RULE = ("float arrays of 1-3 D with small integer values x orders 1-4 x shifts (
         "exact translations with the border rule, order-1 fractional shifts are linear interpolation, spline weights sum to 1 (orders "
         "1-4, exact), spline_filter coefficients reproduce the samples (1e-6), zoom/imresize/resize_to return the requested shape "
         "and map corners to corners; the shift argument is not modified. Non-trivial: array not constant")
-NOT_PROVED = ["orders 2-4: partition of unity and the prefilter (irrational poles) are checked numerically/exactly per case, not proved",
+NOT_PROVED = ["the recursive prefilter (irrational poles) of orders 2-4 is checked numerically/exactly per case, not proved; the "
+              "B-spline weights of orders 1-4 are proved to sum to one and a constant signal to be reproduced exactly",
               "N-D results are compared with the 1-D Q model applied along each axis in turn (tensor product)"]
 BUDGET_S = {"quick": 100, "thorough": 900}
 
 
+def setup(ctx):
+    """shifts by whole periods of the border modes are first run in isolated workers: a crash must become a replayable
+    violation instead of killing this process"""
+    from vlib import isolate, registry as R
+    reqs = []
+    for ln in (2, 3, 6):
+        for mode in MODES:
+            for order in (1, 3):
+                for k in (1, 2, -1, -2):
+                    for per in (2 * ln, 2 * ln - 2, ln - 1):
+                        if per > 0:
+                            reqs.append({"id": "per-%d-%s-%d-%d-%d" % (ln, mode, order, k, per), "fn": "interpolate.shift",
+                                         "args": [R.A("float64", [ln], [float(i) for i in range(ln)]), [float(k * per)]],
+                                         "kwargs": {"order": order, "mode": mode}})
+    outs = isolate.run_batch(ctx.lib, reqs, timeout_per_call=20)
+    ctx.c18_crashes = [r for r, o in zip(reqs, outs) if o is None or "crash" in o or "hang" in o]
+    ctx.stats["isolated_period_shifts"] = len(reqs)
+
+
 def cases(ctx):
+    for r in getattr(ctx, "c18_crashes", []):
+        yield {"kind": "crash", "req": r}
     rng = ctx.rng
     n = 450 if ctx.tier == "quick" else 5000
     for i in range(n):
@@ -32,7 +54,10 @@ def cases(ctx):
         c = {"kind": kind, "shape": shape, "vals": vals, "order": order, "mode": mode, "layout": rng.choice(LAYOUTS),
              "dtype": rng.choice(["float64", "float64", "float32", "int32"])}
         if kind == "shift":
-            c["shift4"] = [rng.choice([0, 0, 4, -4, 8, 2, -2, 1, 3, -5, 4 * (shape[d] + 1), -4 * shape[d]]) for d in range(nd)]
+            # quarter-pixel units; includes whole multiples of the periods of the border modes (2*len, 2*len-2, len-1) on both sides
+            c["shift4"] = [rng.choice([0, 0, 4, -4, 8, 2, -2, 1, 3, -5, 4 * (shape[d] + 1), -4 * shape[d],
+                                       8 * shape[d], -8 * shape[d], 16 * shape[d], 4 * (2 * shape[d] - 2), -8 * (shape[d] - 1),
+                                       4 * (shape[d] - 1), 12 * shape[d] + 2]) for d in range(nd)]
             c["prefilter"] = False if order > 1 else rng.random() < 0.5
         elif kind == "zoom":
             c["out_shape"] = [rng.choice([s, s, 2 * s - 1, 2 * s, max(1, s - 1), rng.randint(1, 12)]) for s in shape]
@@ -75,6 +100,13 @@ def q_apply(ctx, cmd, order, mode, param, arr):
 
 
 def run_case(ctx, case):
+    if case["kind"] == "crash":
+        from vlib import isolate
+        o = isolate.run_batch(ctx.lib, [case["req"]], timeout_per_call=20)[0]
+        if o is None or "crash" in o or "hang" in o:
+            return Result(False, True, {"why": "interpolate.shift by a whole period of the border mode crashed or hung the interpreter",
+                                        "call": case["req"]["id"]})
+        return Result(True, True, None, "crash-replay")
     mh = ctx.mh
     from mahotas import interpolate as I
     kind = case["kind"]
